@@ -116,6 +116,8 @@ func (c17) Generate(r *engine.Rand, index int, tier string) *engine.Scenario {
 		k := (index/3)%114 + 114*r.Intn(3)
 		if r.Chance(1, 4) {
 			k += 144 * 114 // into VBlank
+		} else if r.Chance(1, 4) {
+			k += 154 * 114 // into the first lines of the second frame (line 0 reached through the vertical blank)
 		}
 		sc.SetP("nops", int64(k))
 		// the wait is a counted loop so that programs stay small: BC = k/4 iterations of 4 cycles + k%4 NOPs
@@ -148,7 +150,22 @@ func (c17) Generate(r *engine.Rand, index int, tier string) *engine.Scenario {
 			for i := 0; i < k%7; i++ {
 				g.emit(0x00)
 			}
+			traffic := r.Chance(1, 2)
+			tp := uint8(r.Intn(3))
+			if traffic {
+				// a register pair pointing into OAM, stepped (16-bit INC/DEC) in the first cycles of the
+				// transfer, before anything has been copied: whatever that does to OAM rows then, the transfer
+				// copies over it, and nothing of it is left to happen once the transfer is over
+				g.onlyOAM = true
+				g.emit16(0x01|tp<<4, g.pick(1))
+				g.onlyOAM = false
+			}
 			g.emit(0x3e, uint8(r.Range(0xc0, 0xdc)), 0xe0, 0x46) // LD A,page ; LDH (46),A
+			if traffic {
+				for i, n := 0, r.Range(1, 2); i < n; i++ {
+					g.emit(engine.Pick(r, []uint8{0x03, 0x0b}) | tp<<4)
+				}
+			}
 			if r.Chance(2, 3) {
 				for i, n := 0, r.Intn(120); i < n; i++ {
 					g.emit(0x00)
